@@ -18,6 +18,7 @@ import (
 	"github.com/temporalio/s2s-proxy/encryption"
 	"github.com/temporalio/s2s-proxy/transport/mux"
 	"verifharness/fakes"
+	"verifharness/pki"
 	"verifharness/rec"
 )
 
@@ -75,22 +76,22 @@ type outcome struct {
 	inconclusive string
 }
 
-func clientTLS(p *pki, c *cred) *tls.Config {
-	cfg := &tls.Config{RootCAs: p.ca1Pool, ServerName: "proxy.test", MinVersion: tls.VersionTLS12}
+func clientTLS(p *pki.PKI, c *pki.Cred) *tls.Config {
+	cfg := &tls.Config{RootCAs: p.CA1Pool, ServerName: "proxy.test", MinVersion: tls.VersionTLS12}
 	// present the credential regardless of the CA hint the server sends
 	cfg.GetClientCertificate = func(*tls.CertificateRequestInfo) (*tls.Certificate, error) {
-		if c.tlsCert == nil {
+		if c.TLSCert == nil {
 			return &tls.Certificate{}, nil
 		}
-		return c.tlsCert, nil
+		return c.TLSCert, nil
 	}
 	return cfg
 }
 
-func proxyTLSConfig(p *pki, r row, own *cred) encryption.TLSConfig {
-	cfg := encryption.TLSConfig{RemoteCAPath: p.ca1Path, SkipCAVerification: !r.Verify}
+func proxyTLSConfig(p *pki.PKI, r row, own *pki.Cred) encryption.TLSConfig {
+	cfg := encryption.TLSConfig{RemoteCAPath: p.CA1Path, SkipCAVerification: !r.Verify}
 	if r.OwnCert {
-		cfg.CertificatePath, cfg.KeyPath = own.certPath, own.keyPath
+		cfg.CertificatePath, cfg.KeyPath = own.CertPath, own.KeyPath
 	}
 	if r.Role == "client" {
 		if !r.NoName {
@@ -103,8 +104,8 @@ func proxyTLSConfig(p *pki, r row, own *cred) encryption.TLSConfig {
 }
 
 // ---- server role, raw listener ----
-func serverRaw(p *pki, r row, probe *fakes.Probe) outcome {
-	cfg, err := encryption.GetServerTLSConfig(proxyTLSConfig(p, r, p.creds["valid-ca1-second"]), probe)
+func serverRaw(p *pki.PKI, r row, probe *fakes.Probe) outcome {
+	cfg, err := encryption.GetServerTLSConfig(proxyTLSConfig(p, r, p.Creds["valid-ca1-second"]), probe)
 	if err != nil || cfg == nil {
 		return outcome{detail: fmt.Sprintf("GetServerTLSConfig: %v", err), inconclusive: "could not build the server config"}
 	}
@@ -135,7 +136,7 @@ func serverRaw(p *pki, r row, probe *fakes.Probe) outcome {
 		return outcome{inconclusive: err.Error()}
 	}
 	defer raw.Close()
-	c := tls.Client(raw, clientTLS(p, p.creds[r.Peer]))
+	c := tls.Client(raw, clientTLS(p, p.Creds[r.Peer]))
 	c.SetDeadline(time.Now().Add(watchdog))
 	var cliRes string
 	if _, err := c.Write([]byte("ping")); err != nil {
@@ -164,13 +165,13 @@ func serverRaw(p *pki, r row, probe *fakes.Probe) outcome {
 }
 
 // ---- client role, raw dial ----
-func clientRaw(p *pki, r row, probe *fakes.Probe) outcome {
-	cfg, err := encryption.GetClientTLSConfig(proxyTLSConfig(p, r, p.creds["valid-ca1-second"]))
+func clientRaw(p *pki.PKI, r row, probe *fakes.Probe) outcome {
+	cfg, err := encryption.GetClientTLSConfig(proxyTLSConfig(p, r, p.Creds["valid-ca1-second"]))
 	if err != nil || cfg == nil {
 		return outcome{detail: fmt.Sprintf("GetClientTLSConfig: %v", err), inconclusive: "could not build the client config"}
 	}
-	peer := p.creds[r.Peer]
-	scfg := &tls.Config{Certificates: []tls.Certificate{*peer.tlsCert}, MinVersion: tls.VersionTLS12}
+	peer := p.Creds[r.Peer]
+	scfg := &tls.Config{Certificates: []tls.Certificate{*peer.TLSCert}, MinVersion: tls.VersionTLS12}
 	ln, err := tls.Listen("tcp", "127.0.0.1:0", scfg)
 	if err != nil {
 		return outcome{inconclusive: err.Error()}
@@ -228,12 +229,12 @@ func clientRaw(p *pki, r row, probe *fakes.Probe) outcome {
 }
 
 // ---- server role, real mux receiver ----
-func serverMux(p *pki, r row, probe *fakes.Probe) outcome {
+func serverMux(p *pki.PKI, r row, probe *fakes.Probe) outcome {
 	life, cancel := context.WithCancel(context.Background())
 	defer cancel()
 	added := make(chan struct{}, 4)
 	prov, err := mux.NewMuxReceiverProvider(life, "verif", func(s *yamux.Session, c net.Conn) { added <- struct{}{} }, 1,
-		config.TCPTLSInfo{ConnectionString: "127.0.0.1:0", TLSConfig: proxyTLSConfig(p, r, p.creds["valid-ca1-second"])}, []string{"127.0.0.1:0", "verif-mode", "verif"}, probe)
+		config.TCPTLSInfo{ConnectionString: "127.0.0.1:0", TLSConfig: proxyTLSConfig(p, r, p.Creds["valid-ca1-second"])}, []string{"127.0.0.1:0", "verif-mode", "verif"}, probe)
 	if err != nil {
 		return outcome{detail: fmt.Sprintf("NewMuxReceiverProvider: %v", err), inconclusive: "could not build the receiver"}
 	}
@@ -244,7 +245,7 @@ func serverMux(p *pki, r row, probe *fakes.Probe) outcome {
 		return outcome{inconclusive: err.Error()}
 	}
 	defer raw.Close()
-	c := tls.Client(raw, clientTLS(p, p.creds[r.Peer]))
+	c := tls.Client(raw, clientTLS(p, p.Creds[r.Peer]))
 	c.SetDeadline(time.Now().Add(watchdog))
 	ycfg := yamux.DefaultConfig()
 	ycfg.LogOutput = io.Discard
@@ -279,9 +280,9 @@ func serverMux(p *pki, r row, probe *fakes.Probe) outcome {
 }
 
 // ---- client role, real mux establisher ----
-func clientMux(p *pki, r row, probe *fakes.Probe) outcome {
-	peer := p.creds[r.Peer]
-	scfg := &tls.Config{Certificates: []tls.Certificate{*peer.tlsCert}, MinVersion: tls.VersionTLS12}
+func clientMux(p *pki.PKI, r row, probe *fakes.Probe) outcome {
+	peer := p.Creds[r.Peer]
+	scfg := &tls.Config{Certificates: []tls.Certificate{*peer.TLSCert}, MinVersion: tls.VersionTLS12}
 	ln, err := tls.Listen("tcp", "127.0.0.1:0", scfg)
 	if err != nil {
 		return outcome{inconclusive: err.Error()}
@@ -320,7 +321,7 @@ func clientMux(p *pki, r row, probe *fakes.Probe) outcome {
 	}()
 	life, cancel := context.WithCancel(context.Background())
 	added := make(chan struct{}, 4)
-	set := config.TCPTLSInfo{ConnectionString: ln.Addr().String(), TLSConfig: proxyTLSConfig(p, r, p.creds["valid-ca1-second"])}
+	set := config.TCPTLSInfo{ConnectionString: ln.Addr().String(), TLSConfig: proxyTLSConfig(p, r, p.Creds["valid-ca1-second"])}
 	prov, err := mux.NewMuxEstablisherProvider(life, "verif", func(s *yamux.Session, c net.Conn) { added <- struct{}{} }, 1, set, []string{"127.0.0.1:0", "verif-mode", "verif"}, probe)
 	if err != nil {
 		cancel()
@@ -363,12 +364,12 @@ func TestMatrix(t *testing.T) {
 		t.Fatal(err)
 	}
 	defer os.RemoveAll(dir)
-	p := newPKI(dir)
+	p := pki.New(dir)
 	probe := fakes.NewProbe(1)
 	var rows []row
 	for _, role := range []string{"server", "client"} {
 		for _, emb := range []string{"raw", "mux"} {
-			for _, peer := range p.order {
+			for _, peer := range p.Order {
 				if role == "client" && peer == "none" {
 					continue // a TLS server cannot present "no certificate"
 				}
